@@ -18,6 +18,7 @@ import dns.rdata
 import dns.rdataclass
 import dns.rdataset
 import dns.rdatatype
+import dns.zone
 
 from harness.core import Ctx, VERIF, enc_labels, dec_labels
 
@@ -26,7 +27,10 @@ RULE = (
     "rollback, replacement) of add/replace/delete-name/delete-rdataset/delete-rdata operations with NS-heavy type "
     "pool {NS,A,TXT,DS,CNAME,NSEC,RRSIG(NS|A|CNAME|NSEC)} on owner names of <= 4 labels over {a,b,c,x,A} at, above and "
     "below cuts (nested cuts included), relativized and absolute zones, origins example./ex.ample./root; a "
-    "trigger-avoiding stream (no operation that hits a known defect) so that the oracle runs to the end; all "
+    "trigger-avoiding stream (no operation that hits a known defect) so that the oracle runs to the end; the initial "
+    "load from master-file text (dns.zone.from_text with the B-tree zone factory; origin passed or taken from a $ORIGIN "
+    "line; relativize on/off; names spelled relative, absolute or @; every permutation of the non-apex records, "
+    "duplicated rdataset lines), compared at the commit and on bounds queries with the model and the definition; all "
     "permutations of small record sets as load order, split over two transactions at every point; bounds queried "
     "with every name of <= 3 labels over a 3-letter alphabet plus in-zone and out-of-zone extras; a malformed "
     "stream (names outside the origin, over-long names, mixed case, SOA off the apex, first writer not a "
@@ -185,6 +189,43 @@ def validate_key(cfg, labels):
     return low(full) if not cfg["rel"] else low(labels)
 
 
+def text_name(labels):
+    """master-file spelling of a label list (load cases use letters and digits only)"""
+    if len(labels) == 0:
+        return "@"
+    return ".".join(l.decode("ascii") if l else "" for l in labels)
+
+
+def rdata_text(ty, cov, alt=False):
+    if ty == RRSIG:
+        return f"{dns.rdatatype.to_text(cov)} 8 2 300 20300101000000 20200101000000 {2 if alt else 1} example. AAAA"
+    return RDATA[ty][1 if alt else 0]
+
+
+def load_text(case):
+    """the zone file of a load case: one line per `p:` item, in item order; `$ORIGIN` first when the origin is not passed"""
+    origin = [bytes.fromhex(x) for x in case["origin"]]
+    lines = []
+    if case["load"]["origin_from_text"]:
+        lines.append("$ORIGIN " + (text_name(origin) if origin != [b""] else "."))
+    seen = set()
+    for item in case["items"]:
+        f = item.split(":")
+        if f[0] != "p":
+            continue
+        ty, cov = int(f[2]), int(f[3])
+        alt = (f[1], ty, cov) in seen      # a second line for the same rdataset carries another rdata
+        seen.add((f[1], ty, cov))
+        lines.append(f"{text_name(dec_labels(f[1]))} 300 IN {dns.rdatatype.to_text(ty)} {rdata_text(ty, cov, alt)}")
+    return "\n".join(lines) + "\n"
+
+
+def load_zone(case):
+    origin = dns.name.Name([bytes.fromhex(x) for x in case["origin"]])
+    return dns.zone.from_text(load_text(case), origin=None if case["load"]["origin_from_text"] else origin,
+                              relativize=bool(case["rel"]), zone_factory=dns.btreezone.Zone)
+
+
 def evaluate(case):
     """run case["items"] on the implementation.  Returns (trace line, spec line, failures) where failures are
     (signature, what) pairs of the direct oracle."""
@@ -193,7 +234,8 @@ def evaluate(case):
     origin = dns.name.Name(origin_labels)
     cfg = {"rel": rel, "origin": tuple(origin_labels)}
     apex = () if rel else low(origin_labels)
-    zone = dns.btreezone.Zone(origin, relativize=rel)
+    load = case.get("load")
+    zone = None if load else dns.btreezone.Zone(origin, relativize=rel)
     out, spec_out, fails = [], [], []
     marks = []          # per transaction end / query: does the property hold there? (for the guard implication)
     txn = None          # open transaction (or "failed")
@@ -298,6 +340,10 @@ def evaluate(case):
             out.append("FOREIGN:" + type(e).__name__)
             fails.append(("C20/txn-end/foreign-exception:" + type(e).__name__, f"commit/rollback raised {e!r}"))
         txn = None
+        record_commit()
+
+    def record_commit():
+        nonlocal tainted
         v = committed_version()
         if v is None:
             out.append("C-")
@@ -313,13 +359,33 @@ def evaluate(case):
             tainted = False
         elif not tainted:
             tainted = True
-            fails.append((f"C20/flags/{'+'.join(clauses)}/at-commit", f"committed version differs from the definition: {show_snap(v)}"))
+            if load:
+                # attribute to the operations when the same records fail the same way through transactions
+                # (known nested-cut / CNAME classes); otherwise it is the load path itself
+                via_txn = [f_ for f_ in evaluate(dict(case, load=None))[2] if f_[0].startswith("C20/flags/")]
+                if via_txn:
+                    fails.extend(via_txn)
+                else:
+                    how = "origin-from-$ORIGIN" if load["origin_from_text"] else "explicit-origin"
+                    fails.append((f"C20/load/{'+'.join(clauses)}/{how}/{'relativized' if rel else 'absolute'}",
+                                  f"zone loaded from text differs from the definition ({', '.join(clauses)}): {show_snap(v)}; text {load_text(case)!r}"))
+            else:
+                fails.append((f"C20/flags/{'+'.join(clauses)}/at-commit", f"committed version differs from the definition: {show_snap(v)}"))
         # what the definition says, for the comparison with the Lean specification
         spec_out.append("C{" + ";".join(
             f"{enc_labels(k)}={sp.flags(k)}=" + "+".join(f"{a}.{b}" for a, b in sorted(sp.content[k])) for k in sp.order())
             + "|" + ";".join(enc_labels(d) for d in sp.delegs()) + "}")
 
-    for item in case["items"]:
+    items = case["items"]
+    if load:
+        try:
+            zone = load_zone(case)
+        except BaseException as e:
+            return "ok LOAD!" + type(e).__name__, "ok", [("C20/load/raises:" + type(e).__name__, f"from_text raised {e!r} on {load_text(case)!r}")], \
+                {"ops": 0, "queries": 0, "commits": 0, "tainted": 0, "errors": 0, "marks": []}
+        record_commit()
+        items = [i for i in items if i.startswith("Q")]
+    for item in items:
         f = item.split(":")
         if f[0][0] == "T":
             close()
@@ -476,7 +542,7 @@ def init_bit():
 
 
 def op_line(case, variant):
-    return (f"c20.hist {1 if case['rel'] else 0} {enc_labels([bytes.fromhex(x) for x in case['origin']])} {variant} "
+    return (f"{'c20.load' if case.get('load') else 'c20.hist'} {1 if case['rel'] else 0} {enc_labels([bytes.fromhex(x) for x in case['origin']])} {variant} "
             f"{init_bit()} " + " ".join(case["items"]))
 
 
@@ -490,7 +556,7 @@ def eval_case(ctx: Ctx, case: dict):
     trace, spec, fails, stats = evaluate(case)
     ctx.corr(op_line(case, variant), trace, case)
     ctx.corr(spec_line(case), spec, case)
-    _guard_queue.append((op_line(case, variant).replace("c20.hist", "c20.guard", 1), stats.pop("marks"), case))
+    _guard_queue.append((op_line(case, variant).replace("c20.load", "c20.guard", 1).replace("c20.hist", "c20.guard", 1), stats.pop("marks"), case))
     if len(_guard_queue) >= 20000:
         flush_guards(ctx)
     for k, n in stats.items():
@@ -562,6 +628,10 @@ def impl_of_op(op: str):
     if f[0] == "c20.hist":
         case = {"rel": f[1] == "1", "origin": [l.hex() for l in dec_labels(f[2])], "items": f[5:]}
         return evaluate(case)[0]
+    if f[0] == "c20.load":
+        # the load mode (origin passed or taken from $ORIGIN) is not part of the model line: try both
+        case = {"rel": f[1] == "1", "origin": [l.hex() for l in dec_labels(f[2])], "items": f[5:]}
+        return " | ".join(evaluate(dict(case, load={"origin_from_text": m}))[0] for m in (False, True))
     case = {"rel": f[1] == "1", "origin": [l.hex() for l in dec_labels(f[2])], "items": f[4:]}
     return evaluate(case)[1]
 
@@ -823,8 +893,41 @@ def gen_load_orders(rng):
     return cases
 
 
+def gen_loads(rng):
+    """the initial load: zones read from text, origin passed explicitly or taken from a `$ORIGIN` line, relativized
+    or not, owner names spelled relative / absolute / `@`, records in every order (all permutations of the
+    non-apex records, apex SOA and NS dropped at random places), a duplicated rdataset line now and then"""
+    origin = rng.choice([[b"example", b""], [b"example", b""], [b"ex", b"ample", b""], [b""]])
+    pool = [([b"a"], (2, 0)), ([b"b", b"a"], (2, 0)), ([b"c", b"b", b"a"], (2, 0)), ([b"x", b"b", b"a"], (1, 0)),
+            ([b"x", b"a"], (1, 0)), ([b"a"], (43, 0)), ([b"b"], (1, 0)), ([b"a", b"b"], (2, 0)), ([b"b", b"a"], (1, 0)),
+            ([b"a"], (1, 0)), ([b"c"], (2, 0)), ([b"c"], (47, 0)), ([b"x", b"c"], (16, 0)), ([b"A"], (46, 2))]
+    recs = rng.shuffle(pool)[: rng.choice([2, 3, 3, 4])]
+    if rng.chance(1, 3):
+        recs.append(recs[0])      # the same rdataset on two lines
+        recs = recs[:4]
+    queries = [[b"b"], [b"a"], [b"y", b"a"], [b"c", b"a"], [b"z"], [b"x", b"b", b"a"], [b"a", b"b"], [b"0"], []]
+    cases = []
+    for perm in sorted(set(itertools.permutations(range(len(recs))))):
+        order = [recs[i] for i in perm]
+        for origin_from_text in (False, True):
+            for rel in (False, True):
+                def spell_t(rn):
+                    m = rng.below(3)
+                    if not rn:
+                        return [] if m else list(origin)
+                    return list(rn) if m else list(rn) + list(origin)
+                lines = [(n, k) for n, k in order]
+                lines.insert(rng.below(len(lines) + 1), ([], (6, 0)))
+                lines.insert(rng.below(len(lines) + 1), ([], (2, 0)))
+                items = ["T11"] + [f"p:{enc(spell_t(n))}:{k[0]}:{k[1]}" for n, k in lines]
+                items += ["Q:" + enc(list(q) + list(origin) if (not rel) != rng.chance(1, 5) else list(q)) for q in queries]
+                cases.append({"kind": "hist", "rel": rel, "origin": hexl(origin), "items": items,
+                              "load": {"origin_from_text": origin_from_text}})
+    return cases
+
+
 def run_case(ctx, c, tag):
-    ctx.case((tag, c["rel"], tuple(c["origin"]), tuple(c["items"])), sample=c)
+    ctx.case((tag, c["rel"], tuple(c["origin"]), tuple(c["items"]), str(c.get("load"))), sample=c)
     ctx.count("gen." + tag)
     return eval_case(ctx, c)
 
@@ -844,6 +947,10 @@ def generate(ctx: Ctx, scale: int, rng):
     for _ in range(n(6)):
         for c in gen_load_orders(rng):
             run_case(ctx, c, "load-order")
+    for _ in range(n(8)):
+        for c in gen_loads(rng):
+            run_case(ctx, c, "load-text." + ("$ORIGIN" if c["load"]["origin_from_text"] else "origin")
+                     + (".rel" if c["rel"] else ".abs"))
 
 
 def run(ctx: Ctx):
